@@ -27,44 +27,6 @@ open Aqua Aqua.Exec Aqua.Air Aqua.Net AquaProps AquaProps.NetLift
 /-- everything the runs of `q` have handed to `q`'s host so far, in issue order -/
 def issued (st : NetSt) (q : String) : List (Nat × CallRequest) := (runsOf st q).flatMap Run.requests
 
-/-- a property of network states that holds initially, survives any change of the wire and any absorbed run,
-holds in every reachable state -/
-theorem reachable_induction {env : Env} {svc : Services} {P : Particle} (Q : NetSt → Prop)
-    (h0 : Q {}) (hwire : ∀ st w, Q st → Q { st with wire := w }) (habs : ∀ st r, Q st → Q (absorb st r))
-    {st : NetSt} (h : Reachable env svc P st) : Q st := by
-  obtain ⟨es, hp⟩ := h
-  have : ∀ (es : List Event) (s s' : NetSt), Q s → play env svc P s es = some s' → Q s' := by
-    intro es
-    induction es with
-    | nil => intro s s' hq hp; simp only [play] at hp; injection hp with hp; subst hp; exact hq
-    | cons e es ih =>
-      intro s s' hq hp
-      simp only [play] at hp
-      split at hp
-      · rename_i s1 hs
-        refine ih s1 s' ?_ hp
-        cases e with
-        | start =>
-          simp only [step] at hs
-          split at hs
-          · injection hs with hs; subst hs; exact habs _ _ hq
-          · cases hs
-        | deliver k dup =>
-          simp only [step] at hs
-          split at hs
-          · cases hs
-          · injection hs with hs; subst hs
-            cases dup with
-            | true => exact habs _ _ hq
-            | false => exact habs _ _ (hwire _ _ hq)
-        | answer q ids =>
-          simp only [step] at hs
-          split at hs
-          · cases hs
-          · injection hs with hs; subst hs; exact habs _ _ hq
-      · cases hp
-  exact this es {} st h0 hp
-
 theorem runsOf_absorb (st : NetSt) (r : Run) (q : String) :
     runsOf (absorb st r) q = runsOf st q ++ (if r.peer == q then [r] else []) := by
   have hruns : (absorb st r).runs = st.runs ++ [r] := rfl
@@ -102,7 +64,7 @@ theorem C05_network_pending_issued (env : Env) (svc : Services) (P : Particle) (
   refine reachable_induction (env := env) (svc := svc) (P := P)
     (fun st => ∀ q, List.Sublist (peerSt st q).pending (issued st q)) ?_ ?_ ?_ h
   · intro q; exact List.Sublist.refl _
-  · intro st w hq q; exact hq q
+  · intro st w _ hq q; exact hq q
   · intro st r hq q
     by_cases hpq : r.peer = q
     · subst hpq
